@@ -36,34 +36,47 @@ COQ = os.path.join(VERIF, "coq")
 
 THEOREMS = [
     {"name": "C20_inline_roundtrip_partial", "strength": "P",
-     "text": "for every list of (key, value, separator) with key in \\w+, separators non-empty over "
-             "{space , ;} (the last may be empty) and value an integer (any Z), decimal numeral, boolean in "
-             "any letter case, null, double-quoted string, single-quoted string, <% %> or {{ }} expression: "
-             "parse_inline_params(render kvs) = [(key, denotation)] with the right JSON type.  Partial: quoted "
-             "strings must not look like {...}, double-quoted ones must not begin/end with an apostrophe "
-             "(nor end with apostrophe+newline); bracket lists and quoted JSON objects are not in the class"},
+     "text": "forall l : list (key, value, separator): keys non-empty \\w runs, separators over {blank , ;} (all but the "
+             "last non-empty), values among VInt (optional minus + digit run without leading zero), VDec (the same + "
+             "`.` + digit run), VBool (true/false in any letter case), VNull, VDq (double-quoted), VSq (single-quoted), "
+             "VYaql (<% %>), VJinja ({{ }}) => parse_inline_params (render l) = [(key, denotation)] with the JSON type "
+             "of the long form (JInt/JFloat numeral/JBool/JNull/JStr).  Partial because: quoted content must not have "
+             "the form {...}; double-quoted content must contain no double quote and no apostrophe at either end (nor "
+             "apostrophe+newline at the end); single-quoted content no apostrophe; expression bodies no newline and no "
+             "closing pair inside ({{ }} bodies must not end in `}`); bracket lists and quoted JSON objects are outside "
+             "the class (their agreement is only tested)"},
+    {"name": "C20_inline_int_is_Z", "strength": "F",
+     "text": "every z : Z is in the class: text (VZ z) = Z_to_string z, ok_val (VZ z), denote (VZ z) = JInt z"},
     {"name": "C20_inline_dq_apostrophe_refuted", "strength": "R",
-     "text": "witness: x=\"'a'\" parses to the string a, not 'a' (apostrophes at the ends of a double-quoted "
-             "value are stripped)"},
+     "text": "witness: x=\"'a'\" parses to the string a, not 'a' (apostrophes at the ends of a double-quoted value are "
+             "stripped as well)"},
+    {"name": "C20_inline_curly_string_refuted", "strength": "R",
+     "text": "witness: x=\"{}\" parses to the empty object, not the string {} (documented quoted-JSON notation; the "
+             "string has no inline form)"},
     {"name": "C20_inline_two_lists_refuted", "strength": "R",
-     "text": "witness: x=[1] y=[2] parses to the single pair x -> the string `[1] y=[2]` (greedy bracket alternative)"},
+     "text": "x=[1] and y=[2] parse to lists separately but `x=[1] y=[2]` parses to the single pair x -> the string "
+             "`[1] y=[2]` (greedy bracket alternative)"},
     {"name": "C20_inline_leading_dot_refuted", "strength": "R",
      "text": "witness: x=.5 is matched by the float alternative and stays the string .5"},
-    {"name": "C20_do", "strength": "F",
-     "text": "split_do(join \",\" (padded names)) = names for non-empty lists of names without comma and "
-             "without leading/trailing blanks, whatever blanks surround the commas; norm_do of the string form "
-             "= norm_do of the list form; absent / empty do = [continue] = explicit continue"},
-    {"name": "C20_with", "strength": "F",
-     "text": "parse_items(keys joined by `, ` or `,` ++ ` in ` ++ E) = (strip E, keys) for word keys none of "
-             "which is the word `in`; without ` in ` the whole string is the expression; the string form of "
-             "with denotes the same items_spec as the mapping form {items: string}"},
+    {"name": "C20_do / C20_do_comma_blank", "strength": "F",
+     "text": "split_do (join \",\" (map pad ps)) = names for every non-empty list of names without comma and without "
+             "blanks at their ends, each padded by arbitrary blanks; corollary for the `, ` separator"},
+    {"name": "C20_do_forms_agree / C20_do_default", "strength": "F",
+     "text": "norm_do (DoStr (join \", \" names)) = norm_do (DoList names) for non-empty names; absent, empty string "
+             "and empty list do all mean [continue], as do the explicit forms"},
+    {"name": "C20_with / C20_with_general / C20_with_plain / C20_with_forms_agree", "strength": "F",
+     "text": "parse_items (join \", \" keys ++ \" in \" ++ E) = (strip E, Some keys) for word keys other than `in` and "
+             "EVERY E; without ` in ` the whole string is the expression; items_of_with (WithStr s) = items_of_with "
+             "(WithMap s null)"},
     {"name": "C20_with_key_in_refuted", "strength": "R",
-     "text": "witness: `x, in in <% ctx().xs %>` (a key called in) is split at the wrong ` in `"},
-    {"name": "C20_action", "strength": "F",
-     "text": "split_action(name ++ blank ++ render kvs) = (name, dict of the denotations) for names without "
-             "blank and without `=`, kvs non-empty of the class above"},
-    {"name": "(tested, not proved) twin definitions compose, inspect and conduct identically on the real engine",
-     "strength": "T", "text": "twin monitor: compose().serialize(), inspect(), every observation of a lock-step run"},
+     "text": "witness: `x, in in <% ctx().xs %>` (a key called in) is cut at the wrong ` in `"},
+    {"name": "C20_action / C20_action_plain", "strength": "F",
+     "text": "split_action_res (name ++ blank ++ render l) = ActInline name (dict of the denotations) for names without "
+             "blank and without `=`, l non-empty of the class above; no inline pair => the action is left alone"},
+    {"name": "(tested, not proved) twin definitions compose, inspect and conduct identically on the real engine; "
+             "bracket lists and quoted JSON objects agree with json.loads", "strength": "T",
+     "text": "twin monitor (compose().serialize(), inspect(), every observation of a lock-step run) and the "
+             "model-vs-real comparison on generated strings"},
 ]
 TRUSTED_BASE = [
     "Coq 8.16.1 kernel via coqc (full .vo build); vm_compute in non-vacuity examples and refutation witnesses",
@@ -725,7 +738,8 @@ def gen_twin(rng):
              "value_classes": set()}
     base = {"version": 1.0, "vars": [{"x": 1}, {"y": "yy"}, {"lst": [[1, "a"], [2, "b"], [3, "c"]]}, {"flat": [4, 5]}],
             "output": [{"ox": L.ctx("x")}, {"oy": L.ctx("y")}, {"oz": L.e("ctx().get('z')", "ctx().get('z')")},
-                       {"ow": L.e("ctx().get('w')", "ctx().get('w')")}]}
+                       {"ow": L.e("ctx().get('w')", "ctx().get('w')")}, {"ov": L.e("ctx().get('v')", "ctx().get('v')")},
+                       {"ou": L.e("ctx().get('u')", "ctx().get('u')")}]}
 
     def kvlist(keys):
         kvs = []
@@ -751,10 +765,10 @@ def gen_twin(rng):
             form = rng.random()
             if form < 0.4:
                 items = "i in " + L.ctx("flat")
-                inp = {"m": L.e("item(i)")}
+                inp = {"m": L.e("item(i)", "item('i')")}
             elif form < 0.8:
                 items = rng.choice(["a, b in ", "a,b in "]) + L.ctx("lst")
-                inp = {"m": L.e("item(a)"), "s": L.e("item(b)")}
+                inp = {"m": L.e("item(a)", "item('a')"), "s": L.e("item(b)", "item('b')")}
             else:
                 items = L.ctx("flat")
                 inp = {"m": L.e("item()")}
@@ -773,7 +787,7 @@ def gen_twin(rng):
                                                                        "succeeded() and ctx().x > 0")])
                 ltr["when"] = str_["when"] = w
             if rng.random() < 0.7:
-                kvs = kvlist(rng.sample(["x", "y", "z", "w"], rng.randint(1, 3)))
+                kvs = kvlist(rng.sample(["z", "w", "v", "u"], rng.randint(1, 3)))
                 ltr["publish"] = [{k: v} for k, v, _ in kvs]
                 str_["publish"] = inline(kvs, rng)
                 feats["string_publish"] += 1
@@ -822,8 +836,8 @@ def observe(definition, inputs, seed):
     sess = provider.Session(definition, inputs, with_model=False)
 
     def outcome(key, attempt):
-        h = provider.crc(seed, key, attempt) % 10
-        if h < 2:
+        h = provider.crc(seed, key, attempt) % 25
+        if h < 1:
             return "failed", "boom"
         return "succeeded", ["a", 1, {"k": "v"}, None][provider.crc(seed, key, attempt, "r") % 4]
 
